@@ -41,7 +41,7 @@ fn corpus(tier: Tier) -> Vec<String> {
     v
 }
 
-const COSMETIC_VALUES: [&str; 6] = ["red", "#ff00aa", "rgb(1, 2, 3)", "a b", "Times New Roman, serif", "x#y,z"];
+const COSMETIC_VALUES: [&str; 10] = ["red", "#ff00aa", "rgb(1, 2, 3)", "a b", "Times New Roman, serif", "x#y,z", "none", "transparent", "", "inherit"];
 
 /// children of the root that are not style / defs / backdrop, as canonical dumps
 fn body(root: &Element) -> Vec<String> {
@@ -98,7 +98,7 @@ impl Prop for C18 {
     }
     fn rule(&self) -> &'static str {
         "every document of the corpus (shape families, legends, tags, hostile text; thorough: bundled examples) x all 8 include_* combinations, \
-         x one-factor and all-pairs cosmetic settings over 6 values per field, x 4 override sizes, x the 5 entry points; \
+         x one-factor and all-pairs cosmetic settings over 10 values per field (incl. the CSS keywords none, transparent, inherit and the empty string), x 4 override sizes, x the 5 entry points; \
          oracles: only the switched element appears/disappears, cosmetic settings only change the style text, an override size only changes \
          root/backdrop size, to_svg == pretty == with_settings(default) byte for byte, compressed == pretty without inter-element whitespace. \
          distinct_nontrivial = distinct document bodies"
